@@ -322,11 +322,18 @@ Definition p_header (ts : list tok) : P header :=
     Some (HModule n, skip_opt WHITESPACE ts)
   else None.
 
+(* main: WHITESPACE? NEWLINE? header NEWLINE? typeDefs NEWLINE? conditions NEWLINE? EOF.
+   A type definition and a condition start with a NEWLINE of their own, and the NEWLINE rule of the lexer absorbs every
+   run of line breaks, so the optional NEWLINE in front of typeDefs / conditions is taken exactly when two NEWLINE tokens
+   follow each other (which only happens around a hidden-channel `//` comment). *)
+Definition skip_dup_newline (ts : list tok) : list tok :=
+  if is_tk NEWLINE ts && is_tk2 NEWLINE ts then tl ts else ts.
+
 Definition parse (ts : list tok) : option file :=
   let ts := skip_opt NEWLINE (skip_opt WHITESPACE ts) in
   do (h, ts) <- p_header ts;
-  do (tds, ts) <- p_typedefs (S (length ts)) ts;
-  do (cs, ts) <- p_conditions (S (length ts)) ts;
+  do (tds, ts) <- p_typedefs (S (length ts)) (skip_dup_newline ts);
+  do (cs, ts) <- p_conditions (S (length ts)) (skip_dup_newline ts);
   match skip_opt NEWLINE ts with
   | [] => Some {| f_header := h; f_types := tds; f_conds := cs |}
   | _ :: _ => None
